@@ -4,7 +4,7 @@
    Data layer: coq/gen/GeneratedCheck_C03.v proves on every run that the constants and tables of the code
    (printed by the gendata translator from /repo's current tree) are the documented ones. *)
 From Fzf Require Import Prelude AlgoSpec AlgoModel AlgoBasics PrefilterProofs V1Proofs OccursBasics AnchoredProofs ExactProofs.
-From Fzf Require Import V2Facts V2ScanBasics V2ScanPhase2 V2ScanProofs V2Final.
+From Fzf Require Import V2Facts V2ScanBasics V2ScanPhase2 V2ScanProofs V2Final V2DpWin V2Int16Win V2Int16 V2Int16Model.
 Open Scope Z_scope.
 
 (* calculateScore walks the greedy alignment of [sidx, eidx) and returns exactly its documented score *)
@@ -85,6 +85,123 @@ Proof.
   apply (equal_sound_complete_proof co sc cs nm text pat _ Hp Hn) in H. cbn in H. destruct H as [_ [_ H]]. exact H.
 Qed.
 Print Assumptions equal_closed_form.
+
+(* ---------- int16: the model's unbounded Z coincide with the int16 of the code ----------
+   Go keeps H0, C0, B, H, C and every temporary of FuzzyMatchV2's loops in int16.  With bonuses in [0, bmax]
+   (bmax = 10 for the three schemes; same hypotheses as no_overflow_gen_proof) and a pattern of M characters:
+     hb bmax i = 16*(i+1) + bmax*(i+2)      bound of row i (0-based);   hb bmax (M-1) = 16*M + bmax*(M+1)
+   [wstep] / [win_matrix] are the pure form of the matrix fill that the flat model provably computes
+   (phase3_refines_proof); [wstep_trace] / [win_matrix_trace] list every value the loop body computes. *)
+
+(* one cell of row i+1: the stored H and C and every temporary, from a bounded diagonal cell of row i and a
+   bounded left neighbour *)
+Theorem wstep_intermediates_bounded : forall bmax i pchar T B col d hleft inGap,
+  4 <= bmax -> Forall (fun b => 0 <= b <= bmax) B ->
+  0 <= w_h d <= hb bmax i -> 0 <= w_c d <= Z.of_nat i + 1 -> 0 <= hleft <= hb bmax (S i) ->
+  let c := wstep pchar T B col d hleft inGap in
+  let tr := wstep_trace pchar T B col d hleft inGap in
+  0 <= w_h c <= hb bmax (S i) /\ 0 <= w_c c <= Z.of_nat i + 2 /\
+  Forall (fun v => -3 <= v <= hb bmax (S i)) tr /\ In (w_h c) tr /\ In (w_c c) tr.
+Proof. exact wstep_intermediates_bounded_proof. Qed.
+Print Assumptions wstep_intermediates_bounded.
+
+(* the whole matrix: row i in [0, 16(i+1) + bmax(i+2)] x [0, i+1]; every cell, every temporary and the running
+   maximum within the bound of the last row *)
+Theorem win_rows_bounded : forall bmax T B H0 C0 F pat lastIdx fwd,
+  4 <= bmax -> Forall (fun b => 0 <= b <= bmax) B ->
+  Forall (fun h => 0 <= h <= 16 + 2 * bmax) H0 /\ Forall (fun c => 0 <= c <= 1) C0 ->
+  let M := length F in
+  let rows := win_matrix T B H0 C0 F pat lastIdx in
+  (forall i r, nth_error rows i = Some r ->
+     Forall (fun c => 0 <= w_h c <= 16 * (Z.of_nat i + 1) + bmax * (Z.of_nat i + 2) /\
+                      0 <= w_c c <= Z.of_nat i + 1) r) /\
+  Forall (Forall (fun c => 0 <= w_h c <= 16 * Z.of_nat M + bmax * (Z.of_nat M + 1) /\
+                           0 <= w_c c <= Z.of_nat M)) rows /\
+  Forall (fun v => -3 <= v <= 16 * Z.of_nat M + bmax * (Z.of_nat M + 1)) (win_matrix_trace T B H0 C0 F pat lastIdx) /\
+  0 <= fst (win_result fwd T B H0 C0 F pat lastIdx) <= 16 * Z.of_nat M + bmax * (Z.of_nat M + 1).
+Proof. exact win_rows_bounded_proof. Qed.
+Print Assumptions win_rows_bounded.
+
+(* the reported score of FuzzyMatchV2 proper (any M >= 1, no V1 fallback; no side condition on the text) *)
+Theorem v2_score_bounded : forall co sc bmax cs nm fwd ib text pat wp cap s e score pos,
+  0 <= s_bw sc <= bmax -> 0 <= s_bd sc <= bmax -> 8 <= bmax ->
+  (1 <= length pat)%nat ->
+  match cap with Some c => c <? Z.of_nat (length text) * Z.of_nat (length pat) | None => false end = false ->
+  fuzzy_v2 co sc cs nm fwd ib text pat wp cap = Ok (Match s e score pos) ->
+  0 <= score <= 16 * Z.of_nat (length pat) + bmax * (Z.of_nat (length pat) + 1).
+Proof. exact v2_score_bounded_proof. Qed.
+Print Assumptions v2_score_bounded.
+
+(* every int16 value of the run -- [v2_values]: H0, C0, B, maxScore and the temporaries of phase 2; for M >= 2 the
+   H and C cells of all M rows, every temporary of rows 1 .. M-1 and the final maximum -- is in
+   [-3, 16*M + bmax*(M+1)], hence an int16 under the guard (bmax = 10: M <= 1259, v2_int16_threshold) *)
+Theorem v2_int16_safe : forall co sc bmax cs nm fwd ib text pat wp cap s e score pos,
+  0 <= s_bw sc <= bmax -> 0 <= s_bd sc <= bmax -> 8 <= bmax ->
+  (1 <= length pat)%nat ->
+  match cap with Some c => c <? Z.of_nat (length text) * Z.of_nat (length pat) | None => false end = false ->
+  16 * Z.of_nat (length pat) + bmax * (Z.of_nat (length pat) + 1) <= 32767 ->
+  fuzzy_v2 co sc cs nm fwd ib text pat wp cap = Ok (Match s e score pos) ->
+  -32768 <= score <= 32767 /\
+  exists lo hi, ascii_fuzzy_index ib text pat cs = Ok (Some (lo, hi)) /\
+    Forall (fun v => -3 <= v <= 16 * Z.of_nat (length pat) + bmax * (Z.of_nat (length pat) + 1))
+           (v2_values co sc cs nm fwd text pat lo hi) /\
+    Forall (fun v => -32768 <= v <= 32767) (v2_values co sc cs nm fwd text pat lo hi) /\
+    ((2 <= length pat)%nat -> In score (v2_values co sc cs nm fwd text pat lo hi)).
+Proof. exact v2_int16_safe_proof. Qed.
+Print Assumptions v2_int16_safe.
+
+(* with a slab (cap(slab.I16) = 102400): the code's own guard N*M <= cap and M <= N give M <= 320, bound 8330 *)
+Theorem v2_int16_safe_with_slab : forall co sc cs nm fwd ib text pat wp c s e score pos,
+  0 <= s_bw sc <= 10 -> 0 <= s_bd sc <= 10 ->
+  (1 <= length pat)%nat -> c <= 102400 ->
+  (c <? Z.of_nat (length text) * Z.of_nat (length pat)) = false ->
+  fuzzy_v2 co sc cs nm fwd ib text pat wp (Some c) = Ok (Match s e score pos) ->
+  (length pat <= 320)%nat /\ 0 <= score <= 8330 /\
+  exists lo hi, ascii_fuzzy_index ib text pat cs = Ok (Some (lo, hi)) /\
+    Forall (fun v => -3 <= v <= 8330) (v2_values co sc cs nm fwd text pat lo hi) /\
+    Forall (fun v => -32768 <= v <= 32767) (v2_values co sc cs nm fwd text pat lo hi).
+Proof. exact v2_int16_safe_with_slab_proof. Qed.
+Print Assumptions v2_int16_safe_with_slab.
+
+(* the model with int16 arithmetic: [fuzzy_v2_16] is [fuzzy_v2] with Go's wrapping int16 + and * ([w16]) at every
+   int16 operation of phases 2 and 3 (proofs/V2Int16Model.v).  Under the guard the two functions are EQUAL on every
+   input -- results and errors, with or without fallback: the model's unbounded Z lose nothing *)
+Theorem v2_int16_model_eq : forall co sc bmax cs nm fwd ib text pat wp cap,
+  0 <= s_bw sc <= bmax -> 0 <= s_bd sc <= bmax -> 8 <= bmax ->
+  16 * Z.of_nat (length pat) + bmax * (Z.of_nat (length pat) + 1) <= 32767 ->
+  fuzzy_v2_16 co sc cs nm fwd ib text pat wp cap = fuzzy_v2 co sc cs nm fwd ib text pat wp cap.
+Proof. exact fuzzy_v2_16_eq_proof. Qed.
+Print Assumptions v2_int16_model_eq.
+
+(* with a slab of at most 102400 int16 cells (what fzf allocates) NO guard is needed: longer patterns are longer than
+   the text or go to FuzzyMatchV1 (which scores in int) by the code's own N*M > cap test *)
+Theorem v2_int16_model_eq_with_slab : forall co sc cs nm fwd ib text pat wp c,
+  0 <= s_bw sc <= 10 -> 0 <= s_bd sc <= 10 -> c <= 102400 ->
+  fuzzy_v2_16 co sc cs nm fwd ib text pat wp (Some c) = fuzzy_v2 co sc cs nm fwd ib text pat wp (Some c).
+Proof. exact fuzzy_v2_16_eq_with_slab_proof. Qed.
+Print Assumptions v2_int16_model_eq_with_slab.
+
+(* the guard cannot be dropped: for bmax = 10 it holds exactly for M <= 1259, and the bound 26*M + 10 is attained
+   (v2_score_bound_attained: "aaa" in "aaa" scores 88), so at M = 1260 a nil-slab run of the code wraps (K3) *)
+Example v2_int16_guard_threshold :
+  (forall M, 16 * M + 10 * (M + 1) <= 32767 <-> M <= 1259) /\
+  16 * 1260 + 10 * (1260 + 1) = 32770 /\ ~ (-32768 <= 32770 <= 32767).
+Proof. repeat split; intros; lia. Qed.
+
+Example c03_int16_nonvacuous :
+  let co := mkOps (fun c => c) (fun _ => cNonWord) (fun c => c) (fun _ => false) in
+  let text := [102;111;111;45;66;97;114;32;98;97;122] in let pat := [111;98;97] in
+  fuzzy_v2 co scheme_default false true true true text pat false (Some 102400) = Ok (Match 1 6 61 None) /\
+  (102400 <? Z.of_nat (length text) * Z.of_nat (length pat)) = false /\
+  ascii_fuzzy_index true text pat false = Ok (Some (0%nat, 10%nat)) /\
+  length (v2_values co scheme_default false true true text pat 0 10) = 202%nat /\
+  fold_right Z.max 0 (v2_values co scheme_default false true true text pat 0 10) = 61 /\
+  fold_right Z.min 0 (v2_values co scheme_default false true true text pat 0 10) = -3 /\
+  fuzzy_v2 co scheme_default true false true true [97;97;97] [97;97;97] false None = Ok (Match 0 3 88 None) /\
+  16 * 3 + 10 * (3 + 1) = 88 /\
+  fuzzy_v2_16 co scheme_default false true true true text pat true None = Ok (Match 2 6 61 (Some [5%nat; 4%nat; 2%nat])) /\
+  w16 32770 = -32766.
+Proof. cbn zeta. repeat split; vm_compute; reflexivity. Qed.
 
 (* non-vacuity *)
 Example c03_nonvacuous :
